@@ -9,6 +9,7 @@ ByteSeq = z3.SeqSort(BV8)
 
 def register(reg):
     register_crypto(reg)
+    register_core(reg)
 
     @reg.specfun("as_bytes")
     def as_bytes(ex, st, args, cx):
@@ -65,3 +66,38 @@ def register_crypto(reg):
             return ex.o.bytes_(res) if name != "pad_ok" else ex.o.bool_(res)
     for nm, n in (("cbc_enc", 3), ("cbc_dec", 3), ("pkcs7_pad", 1), ("pkcs7_unpad", 1), ("pad_ok", 1)):
         mk(nm, n)
+
+
+def register_core(reg):
+    @reg.specfun("fieldof")
+    def fieldof(ex, st, args, cx):
+        """the field a configuration resolves `key` to: schema field first, then the config's own (dynamic) fields"""
+        o, w, V = ex.o, ex.w, ex.w.V
+        cfg, key = o.r(args[0]), args[1].e
+        sch = V.r(st.rd("Config._schema", cfg))
+        d1, d2 = w.rep(sch, 1), w.rep(cfg, 4)
+        v1 = z3.If(z3.Select(st.rd("$dom", d1), key), z3.Select(st.rd("$map", d1), key), V.none)
+        v2 = z3.If(z3.Select(st.rd("$dom", d2), key), z3.Select(st.rd("$map", d2), key), V.none)
+        for d in (d1, d2):
+            val = z3.Select(st.rd("$map", d), key)
+            st.assume(z3.Implies(z3.Select(st.rd("$dom", d), key),
+                                 z3.And(o.is_type(val, "ref:BaseField"), st.rd("BaseField._key", V.r(val)) == key, V.r(val) <= st.alloc)))
+        return SV(z3.If(V.is_none(v1), v2, v1))
+
+    @reg.specfun("persistent")
+    def persistent(ex, st, args, cx):
+        """a Field whose value lives in the configuration's data (not virtual, not an instance method)"""
+        o = ex.o
+        f = args[0].e
+        return o.bool_(z3.And(o.is_type(f, "ref:Field"), z3.Not(o.is_type(f, "ref:VirtualFieldMixin")),
+                              z3.Not(o.is_type(f, "ref:InstanceMethodFieldMixin"))))
+
+    def unint(name, n, ret="bool"):
+        @reg.specfun(name)
+        def f(ex, st, args, cx, name=name):
+            fn = ex.w.fun("spec_" + name, *(["V"] * n + [ret if ret != "V" else "V"]))
+            res = fn(*[a.e for a in args])
+            return ex.o.bool_(res) if ret == "bool" else SV(res)
+    unint("accepts", 2)      # accepts(field, stored_value): the field's declared constraints hold of the value
+    unint("ok", 2)           # ok(field, input): validation accepts the input
+    unint("norm_of", 3)      # norm_of(field, input, result): result is the field's normalised form of input
